@@ -51,6 +51,12 @@ def invariants(shard, r, vd):
                 for y in images(shard, cname, e.x):
                     if y not in w.finished[cname]:
                         vd.add("emit-completed-before-consumer@%s" % name)
+    if not t.buffering:
+        for e in w.emits:
+            if e.done and e.exc is None:
+                for j in e.jobs_started:
+                    if not j.fut.done():
+                        vd.add("emit-completed-before-consumer@%s" % name)
     # ---- bound (awaiting producers only)
     if t.bound is not None and shard.get("awaiting", True):
         kind, n = t.bound
@@ -117,6 +123,8 @@ def templates(tier):
             out.append(dict(base, template="flatten-direct", out_of_order=True, items=2))
             out.append(dict(base, template="rate_limit", timers=True, interval=2))
             out.append(dict(base, template="union", items=2))
+            out.append(dict(base, template="zip_latest-direct", items=3, out_of_order=True))
+            out.append(dict(base, template="combine_latest-direct", items=2))
             for n in (1, 2, 3):
                 out.append(dict(base, template="buffer", n=n))
                 out.append(dict(base, template="map_async", n=n, out_of_order=True))
